@@ -8,6 +8,7 @@ import (
 	"github.com/veraison/psatoken"
 
 	"verif/harness/extprof"
+	"verif/harness/keys"
 	"verif/harness/model"
 	"verif/harness/mon"
 	"verif/harness/obs"
@@ -115,6 +116,10 @@ func genTree(g *model.Gen, leaves []leaf, depth int) (error, string, bool) {
 	}
 }
 
+// c13Signer is a working signer for the validating sign gate (never reached
+// for an invalid set).
+var c13Signer = keys.New("ES256", 0).Signer
+
 func runC13(c *mon.Ctx) {
 	c.Rule("(1) every claim x every value class alone (exact class of the getter and of Validate required) and 2-4 combined faults (class of some offending claim required) on claims-sets of both base profiles AND of the two extension profiles embedding them (same rules, other canonical name), built directly, CBOR-decoded and JSON-decoded; (2) every setter of both profiles and of the component x value classes (error class of a refusal); (3) component Validate/getters per field fault; (4) FilterError on generated error trees (leaves: the 11 exported sentinels, foreign and same-text errors; nodes: %w, %v, errors.Join, custom Unwrap() []error, custom Unwrap, custom Is) with ground truth computed on the generated tree. distinct_nontrivial = distinct (profile, claim=class) signatures / distinct tree shapes")
 	g := model.NewGen(c.Seed*31337 + int64(c.Shard))
@@ -164,6 +169,46 @@ func runC13(c *mon.Ctx) {
 				c.Violation(fmt.Sprintf("C13/P%d/validate:%s->%s", a.P, want.Validate, got.Validate),
 					fmt.Sprintf("%s (route %s): Validate has class %s, expected %s (offending classes %v)", sig, route, got.Validate, want.Validate, allowed),
 					map[string]any{"sig": sig, "route": route, "case": abstractSample(a), "wire_hex": mon.Hex(refcbor.Encode(a.WireCBOR()))})
+			}
+			// validation reached through the validating entry points: the error
+			// they return for an invalid set is a validation error and must carry
+			// the same documented class
+			if want.Validate != model.OK && got.Validate != model.OK && !bad {
+				o := o
+				gates := []struct {
+					name string
+					fn   func() error
+				}{
+					{"ValidateAndEncodeClaimsToCBOR", func() error { _, err := psatoken.ValidateAndEncodeClaimsToCBOR(o); return err }},
+					{"ValidateAndEncodeClaimsToJSON", func() error { _, err := psatoken.ValidateAndEncodeClaimsToJSON(o); return err }},
+					{"Evidence.SetClaims", func() error { return (&psatoken.Evidence{}).SetClaims(o) }},
+					{"Evidence.ValidateAndSign", func() error {
+						_, err := (&psatoken.Evidence{Claims: o}).ValidateAndSign(c13Signer)
+						return err
+					}},
+				}
+				for _, gt := range gates {
+					var gerr error
+					if p, pv, fr := mon.Guard(func() { gerr = gt.fn() }); p {
+						c.Violation("C13/panic/"+mon.PanicKey(fr), "panic in "+gt.name, map[string]any{"panic": pv, "frame": fr, "sig": sig, "route": route})
+						continue
+					}
+					c.Eval()
+					if gerr == nil {
+						continue // letting an invalid set through is C08's business
+					}
+					cls := obs.ClassOf(gerr)
+					c.Count("gate-error:" + gt.name + ":" + cls.String())
+					wrong := cls != want.Validate
+					if !single {
+						wrong = !allowed[cls]
+					}
+					if wrong {
+						c.Violation(fmt.Sprintf("C13/P%d/%s:%s->%s", a.P, gt.name, want.Validate, cls),
+							fmt.Sprintf("%s (route %s): the error of %s has class %s, Validate() on the same object has the documented class %s (offending classes %v): %v", sig, route, gt.name, cls, got.Validate, allowed, gerr),
+							map[string]any{"sig": sig, "route": route, "case": abstractSample(a)})
+					}
+				}
 			}
 		}
 	}
